@@ -21,6 +21,7 @@ natively by CPython in replays.  `old(e)` denotes e in the pre-state.
 """
 
 import ast
+import os
 import copy
 import importlib
 import inspect
@@ -527,6 +528,24 @@ class Contract(object):
 
     # -- use at call sites --------------------------------------------------
 
+    def _args_in_domain(self, env):
+        """a parameter declared as an object of class K covers instances of K only; a call passing something else
+        (a str where the contract speaks of a CharacterString source, say) is outside what the contract was verified for"""
+        for pname, sh in self.params.items():
+            if type(sh) is not Obj or pname not in env:
+                continue
+            try:
+                cls = resolve(sh.cls)
+            except Exception:
+                continue
+            if isinstance(cls, type) and not isinstance(env[pname], cls):
+                log = os.environ.get('VERIF_DOMAIN_LOG')
+                if log:
+                    with open(log, 'a') as f:
+                        f.write("%s: %s is a %s, contract declares %s\n" % (self.name, pname, type(env[pname]).__name__, cls.__name__))
+                return False
+        return True
+
     def apply(self, I, func, args, kwargs):
         """replace a call by the contract: assert pre, raise per clause,
         assign the defining posts, havoc, assume ensures"""
@@ -548,6 +567,10 @@ class Contract(object):
             raise PyRaise(e)
         ba.apply_defaults()
         env = dict(ba.arguments)
+        if not self._args_in_domain(env):
+            # the contract was stated (and verified) for another kind of argument than this call passes: it says nothing
+            # about this call -- the body is interpreted at this call site instead
+            return NotImplemented
         fr = self._frame(env)
         if self.applies_when is not None:
             if not I.truth(self.applies_when.eval(I, fr, self.applies_when.eval_olds(I, fr))):
